@@ -1,0 +1,111 @@
+//go:build verif
+
+package dissect
+
+// Contracts for govc (see /verif/DESIGN.md, C12). Comment-only file.
+
+//@ smt
+//@ ; afold(c): ASCII case folding of one byte (A-Z -> a-z, everything else unchanged)
+//@ (define-fun afold ((afold!c Int)) Int (ite (and (<= 65 afold!c) (<= afold!c 90)) (+ afold!c 32) afold!c))
+//@ ; fold_match(s, d, i): d occurs in s at offset i, comparing the ASCII-folded bytes of s with d
+//@ (declare-fun fold_match (Str Str Int) Bool)
+//@ (declare-fun fold_mism (Str Str Int) Int)
+//@ (assert (forall ((s Str) (d Str) (i Int)) (! (=> (fold_match s d i)
+//@     (forall ((j Int)) (! (=> (and (<= 0 j) (< j (slen d))) (= (afold (sat s (+ i j))) (sat d j))) :pattern ((sat d j)))))
+//@   :pattern ((fold_match s d i)))))
+//@ (assert (forall ((s Str) (d Str) (i Int)) (! (=> (not (fold_match s d i))
+//@     (and (<= 0 (fold_mism s d i)) (< (fold_mism s d i) (slen d)) (not (= (afold (sat s (+ i (fold_mism s d i)))) (sat d (fold_mism s d i))))))
+//@   :pattern ((fold_match s d i)))))
+//@ end
+
+// indexIgnoreCase(s, d) is the first offset at which d (already lowered) fold-matches s, or -1.
+//@ func lowerASCII
+//@   pure
+//@   ensures result == afold(c)
+
+//@ func indexIgnoreCase
+//@   pure
+//@   ensures result >= -1 && (result >= 0 ==> result + len(loweredSubstr) <= len(s))
+//@   ensures [found-matches] result >= 0 ==> fold_match(s, loweredSubstr, result)
+//@   ensures [first] forall k in [0, if result < 0 then len(s) - len(loweredSubstr) + 1 else result) :: !fold_match(s, loweredSubstr, k)
+//@   ensures len(loweredSubstr) == 0 ==> result == 0
+//@   loop 1 invariant 0 <= i && i <= len(loweredSubstr) && len(s) == len(loweredSubstr)
+//@   loop 1 invariant forall j in [0, i) :: afold(s[j]) == loweredSubstr[j]
+//@   loop 2 invariant 0 <= i && len(loweredSubstr) >= 1 && len(s) > len(loweredSubstr)
+//@   loop 2 invariant forall k in [0, i) :: !fold_match(s, loweredSubstr, k)
+//@   loop 3 invariant 0 <= i && i <= len(s) - len(loweredSubstr) && len(loweredSubstr) >= 1 && len(s) > len(loweredSubstr)
+//@   loop 3 invariant forall k in [0, i) :: !fold_match(s, loweredSubstr, k)
+//@   loop 3 invariant 0 <= j && j <= len(loweredSubstr)
+//@   loop 3 invariant forall jj in [0, j) :: afold(s[i + jj]) == loweredSubstr[jj]
+
+// idx_fn(f, src, of): what the index function value f returns for (src, of). Both functions ever
+// stored in Dissect.indexOf (strings.Index, indexIgnoreCase) satisfy the bounds stated here.
+//@ smt
+//@ (declare-fun idx_fn (Int Str Str) Int)
+//@ ; dis_nskip(skip, o, k): number of capturing (non-skip) tokens among tokens o .. o+k-1
+//@ (define-fun-rec dis_nskip ((sk (Array Int Bool)) (o Int) (k Int)) Int
+//@   (ite (<= k 0) 0 (+ (dis_nskip sk o (- k 1)) (ite (select sk (+ o (- k 1))) 0 1))))
+//@ ; dis_start(until, o, f, line, s0, k): scan position before token k (-1 once a delimiter is missing)
+//@ (define-fun-rec dis_start ((u (Array Int Str)) (o Int) (f Int) (line Str) (s0 Int) (k Int)) Int
+//@   (ite (<= k 0) s0
+//@     (let ((p (dis_start u o f line s0 (- k 1))))
+//@       (ite (< p 0) (- 1)
+//@         (let ((d (select u (+ o (- k 1)))))
+//@           (ite (= (slen d) 0) (slen line)
+//@             (let ((e (idx_fn f (ssub line p (slen line)) d)))
+//@               (ite (< e 0) (- 1) (+ p e (slen d))))))))))
+//@ end
+
+// capturing-token counts are monotone in the prefix length (induction on n)
+//@ lemma_ind nskip_mono | vars ((sk (Array Int Bool)) (o Int) (k Int) (n Int)) | induction n from k | claim (<= (dis_nskip sk o k) (dis_nskip sk o n)) | pattern ((dis_nskip sk o k) (dis_nskip sk o n))
+
+// counts are never negative
+//@ lemma_ind nskip_nonneg | vars ((sk (Array Int Bool)) (o Int) (n Int)) | induction n from 0 | claim (>= (dis_nskip sk o n) 0) | pattern ((dis_nskip sk o n))
+// a missing leading literal makes every scan position negative
+//@ lemma_ind start_neg0 | vars ((u (Array Int Str)) (o Int) (f Int) (line Str) (s0 Int) (n Int)) | induction n from 0 | claim (=> (< s0 0) (< (dis_start u o f line s0 n) 0)) | pattern ((dis_start u o f line s0 n))
+
+// a capturing token at position k leaves room: nskip(k) + 1 <= nskip(n) for every n > k
+//@ lemma_ind nskip_strict | vars ((sk (Array Int Bool)) (o Int) (k Int) (n Int)) | induction n from (+ k 1) | claim (=> (and (<= 0 k) (not (select sk (+ o k)))) (<= (+ (dis_nskip sk o k) 1) (dis_nskip sk o n))) | pattern ((dis_nskip sk o k) (dis_nskip sk o n))
+
+// once a delimiter is missing the scan position stays negative
+//@ lemma_ind start_neg | vars ((u (Array Int Str)) (o Int) (f Int) (line Str) (s0 Int) (k Int) (n Int)) | induction n from k | claim (=> (< (dis_start u o f line s0 k) 0) (< (dis_start u o f line s0 n) 0)) | pattern ((dis_start u o f line s0 k) (dis_start u o f line s0 n))
+
+//@ functype func(src string, of string) int
+//@   params (this, src, of)
+//@   pure
+//@   ensures result == idx_fn(this, src, of)
+//@   ensures result >= -1 && (result >= 0 ==> result + len(of) <= len(src))
+
+//@ pred wfD(d) := d.groupCount >= 0 && d.groupCount <= 1000000 && d.indexOf != nil
+//@      && d.groupCount == dis_nskip(farr(d.tokens, "skip"), off(d.tokens), len(d.tokens))
+//@ pred wfI(s) := s.Dissect != nil && wfD(s.Dissect) && s.groupPool != nil && wf_pool(s.groupPool)
+//@      && s.groupPool.size >= s.Dissect.groupCount * 2 + 2
+
+// The specification of property C12, as spec functions of the pattern and the line:
+//   pstart: position right after the first occurrence of the leading literal (-1 if it is missing, 0 if there is none)
+//   dstart(k): scan position before token k: each token takes the text up to the first following
+//              occurrence of its trailing literal (to the end of the line if it has none)
+//@ pred pstart(s, b) := if s.Dissect.prefix == "" then 0 else (if idx_fn(s.Dissect.indexOf, str(b), s.Dissect.prefix) < 0 then 0 - 1 else idx_fn(s.Dissect.indexOf, str(b), s.Dissect.prefix) + len(s.Dissect.prefix))
+//@ pred dstart(s, b, k) := dis_start(farr(s.Dissect.tokens, "until"), off(s.Dissect.tokens), s.Dissect.indexOf, str(b), pstart(s, b), k)
+//@ pred nsk(s, k) := dis_nskip(farr(s.Dissect.tokens, "skip"), off(s.Dissect.tokens), k)
+
+//@ func (*DissectInstance).FindSubmatchIndex
+//@   requires wfI(s)
+//@   modifies s.groupPool.pool, s.groupPool.pool[..]
+//@   ensures wfI(s)
+//@   ensures [stable] forall a: int :: forall i: int :: allocated_at_entry(a) && !(a == old(ref(s.groupPool.pool)) && i >= old(off(s.groupPool.pool))) ==> intat(a, i) == old(intat(a, i))
+//@   ensures [no-recycle] result != nil ==> (fresh(result) || (ref(result) == old(ref(s.groupPool.pool)) && off(result) >= old(off(s.groupPool.pool)))) && ref(s.groupPool.pool) == ref(result) && off(s.groupPool.pool) >= off(result) + len(result)
+//@   ensures [shape] result != nil ==> len(result) == s.Dissect.groupCount * 2 + 2
+//@   ensures [nil-iff] (result == nil) == (dstart(s, b, len(s.Dissect.tokens)) < 0)
+//@   ensures [whole] result != nil ==> result[0] == pstart(s, b) - len(s.Dissect.prefix) && result[1] == dstart(s, b, len(s.Dissect.tokens))
+//@   ensures [bounds] result != nil ==> 0 <= result[0] && result[0] <= result[1] && result[1] <= len(b)
+//@   ensures [groups] result != nil ==> forall k in [0, len(s.Dissect.tokens)) :: !s.Dissect.tokens[k].skip ==> result[2 + 2 * nsk(s, k)] == dstart(s, b, k) && result[3 + 2 * nsk(s, k)] == dstart(s, b, k + 1) - len(s.Dissect.tokens[k].until)
+//@   loop 1 invariant wfI(s) && 0 <= start && start <= len(b) && 2 <= idx && idx == 2 + 2 * dis_nskip(farr(s.Dissect.tokens, "skip"), off(s.Dissect.tokens), rangeindex + 1)
+//@   loop 1 invariant rangeindex + 1 <= len(s.Dissect.tokens)
+//@   loop 1 invariant start == dstart(s, b, rangeindex + 1) && pstart(s, b) >= 0 && start >= pstart(s, b)
+//@   loop 1 invariant ret[0] == pstart(s, b) - len(s.Dissect.prefix) && ret[0] >= 0
+//@   loop 1 invariant forall k in [0, rangeindex + 1) :: !s.Dissect.tokens[k].skip ==> ret[2 + 2 * nsk(s, k)] == dstart(s, b, k) && ret[3 + 2 * nsk(s, k)] == dstart(s, b, k + 1) - len(s.Dissect.tokens[k].until)
+//@   loop 1 invariant str == str(b) && len(ret) == s.Dissect.groupCount * 2 + 2
+//@   loop 1 invariant (fresh(ret) && off(ret) == 0) || (ref(ret) == old(ref(s.groupPool.pool)) && off(ret) == old(off(s.groupPool.pool)))
+//@   loop 1 invariant ref(s.groupPool.pool) == ref(ret) && off(s.groupPool.pool) == off(ret) + len(ret)
+//@   loop 1 invariant forall a: int :: forall i: int :: allocated_at_entry(a) && !(a == old(ref(s.groupPool.pool)) && i >= old(off(s.groupPool.pool))) ==> intat(a, i) == old(intat(a, i))
